@@ -637,6 +637,42 @@ def rule_suffix_kept(ctx, R="C10.9"):
         ctx.check(R, "ssa Environment::is_local/kind-of-the-given-name", ok, "kind looked up for `%s`" % (render(gt[0]["args"][0]) if gt else "?"), site("program_structure/src/control_flow_graph/ssa_impl.rs", isl))
 
 
+def eval_parameters_contains(ctx):
+    """`Parameters::contains` by evaluation: a variable is a parameter only under its whole identity - a local that
+    redeclares a parameter's name in an inner scope carries a shadowing suffix and is another variable."""
+    R = "C10.12"
+    ctx.rule(R, "`Parameters::contains` tells a parameter from a local of the same base name: evaluated on the parameter itself, on the same name with a shadowing suffix and on another name")
+    import passeval
+    from finfun import NONE, S, Unsupported
+
+    PF = "program_structure/src/control_flow_graph/parameters.rs"
+    IRF = "program_structure/src/intermediate_representation/ir.rs"
+    try:
+        w = passeval.PassWorld([IRF, PF], PF)
+    except Exception:  # noqa: BLE001
+        return ctx.missing(R, "Parameters::contains")
+    if ("Parameters", "contains") not in w.methods or "VariableName" not in w.structs or "Parameters" not in w.structs or not {"name", "suffix"} <= set(w.structs["VariableName"]):
+        return ctx.missing(R, "Parameters::contains")
+    fn = w.methods[("Parameters", "contains")][0]
+
+    def name(base, suf):
+        vals = {"name": base, "suffix": NONE if suf is None else S("Some", suf)}
+        return S("VariableName", *[vals.get(f, NONE) for f in w.structs["VariableName"]])
+
+    X = name("x", None)
+    got = {}
+    try:
+        for tag, q in (("the parameter `x`", X), ("the local `x` of an inner scope (`x_0`)", name("x", "0")), ("another variable `y`", name("y", None))):
+            pv = {"param_names": ("L", (X, name("n", None)))}
+            me = S("Parameters", *[pv.get(f, ("O", f, ())) for f in w.structs["Parameters"]])
+            got[tag] = w.call_fn(fn, [me, q])
+    except (Unsupported, passeval.Panic) as u:
+        return ctx.missing(R, "Parameters::contains/evaluation", "cannot be evaluated (fail closed): %s" % u)
+    want = {"the parameter `x`": True, "the local `x` of an inner scope (`x_0`)": False, "another variable `y`": False}
+    wrong = ["%s: %s" % (k, got[k]) for k in want if got[k] is not want[k]]
+    ctx.check(R, "Parameters::contains/whole-identity", not wrong, "; ".join(wrong) or "with parameters (x, n): x is a parameter, the shadowing local x_0 and y are not", site(PF, fn))
+
+
 def run(ctx):
     import c04
 
@@ -648,6 +684,7 @@ def run(ctx):
     rule_separator(ctx)
     rule_shadowing(ctx)
     rule_for_scope(ctx)
+    eval_parameters_contains(ctx)
     import c03
 
     ctx.include("C10.7", "every shadowing warning produced while the CFG is built reaches the display: the per-definition cache takes every report, is drained after it was filled and written unconditionally (shared with C03.1)", c03.rule_drain)
